@@ -11,6 +11,8 @@ Line protocol (one reply line per request line):
                       `neg <vᵀ(·)v> <n 1 v…>`      (a vector of negative curvature, checked exactly)
                       `und`                        (neither found — cannot happen for a symmetric matrix; reported, never hidden)
                       or `asym` when `M ≠ Mᵀ`.
+* `quad δ M v`     — exact `vᵀ M v` and `vᵀ (M + δI) v` (`quadForm`): a negative value refutes PSD (`quad_neg_not_psd`);
+                      used for matrices too large for the certificate, with `v` proposed by the float eigen-solver
 * `var b v`        — `Clamp.run Gen.C07.varianceClamp v b`    (MultivariateNormal.variance)
 * `fix b v`        — `Clamp.run Gen.C07.fixedNoiseClamp v b`  (FixedGaussianNoise.__init__)
 * `noise l r…`     — `NExpr.eval Gen.C07.greaterThanTransform` at `Float`; all numbers are IEEE-754 bit
@@ -51,6 +53,19 @@ def step (line : String) : String :=
         if !isSymmB M then "asym" else
         decide1 M ++ ";" ++ decide1 (shift M δ)
       else "bad"
+    | _, _ => "bad"
+  | "quad" :: δ :: rest =>
+    match parseRat? δ, takeMat? rest with
+    | some δ, some (r, c, rows, rest) =>
+      match takeMat? rest with
+      | some (r', _, vr, _) =>
+        if r = c ∧ r = r' then
+          let M : DMat r r Rat := DMat.ofRaw rows
+          if !isSymmB M then "asym" else
+          let v := vecOf vr r
+          s!"{showRat (quadForm M v)} {showRat (quadForm (shift M δ) v)}"
+        else "bad"
+      | none => "bad"
     | _, _ => "bad"
   | "var" :: b :: rest =>
     match parseRat? b, takeMat? rest with
